@@ -163,4 +163,24 @@ theorem circuitKeyC_opts82 (t : UInt8) (l : Nat) (cid rest : List UInt8)
   simp only [beq_self_eq_true, if_true, ge_iff_le, hl4, hfit, and_self, hn0, hn, h7]
   exact congrArg some hc
 
+theorem macKey6_cons (b0 b1 b2 b3 b4 b5 : UInt8) (rest : List UInt8) :
+    macKey6 (b0 :: b1 :: b2 :: b3 :: b4 :: b5 :: rest) = macVal b0 b1 b2 b3 b4 b5 := by
+  simp only [macKey6, List.take, List.foldl, macVal]
+  omega
+
+theorem and_ff (n : Nat) : n &&& 0xFF = n % 256 := by
+  have : (0xFF : Nat) = 2 ^ 8 - 1 := by decide
+  rw [this, Nat.and_two_pow_sub_one_eq_mod]
+
+theorem u64ToMac_macVal (b0 b1 b2 b3 b4 b5 : UInt8) :
+    u64ToMac (macVal b0 b1 b2 b3 b4 b5) = [b0, b1, b2, b3, b4, b5] := by
+  have h0 := b0.toNat_lt; have h1 := b1.toNat_lt; have h2 := b2.toNat_lt
+  have h3 := b3.toNat_lt; have h4 := b4.toNat_lt; have h5 := b5.toNat_lt
+  rw [macVal_horner]
+  simp only [u64ToMac, u64ToMacAux, and_ff, Nat.shiftRight_eq_div_pow]
+  have e (b n : Nat) (hb : b < 256) : (b + 256 * n) % 256 = b ∧ (b + 256 * n) / 2 ^ 8 = n := by omega
+  rw [(e _ _ h5).1, (e _ _ h5).2, (e _ _ h4).1, (e _ _ h4).2, (e _ _ h3).1, (e _ _ h3).2,
+    (e _ _ h2).1, (e _ _ h2).2, (e _ _ h1).1, (e _ _ h1).2, (e _ _ h0).1]
+  simp only [UInt8.ofNat_toNat]
+
 end Bng.Proof.KeyEnc
